@@ -33,6 +33,17 @@ def _r161(ctx: Ctx) -> None:
     ami = m.module('panqec.analysis')
     aci = m.cls('Analysis')
     fn = aci.methods['calculate_thresholds']
+
+    def _has_summary(f):
+        return any(isinstance(n, ast.Dict) and any(isinstance(k, ast.Constant) and k.value == 'p_th_fss' for k in n.keys)
+                   for n in ast.walk(f))
+    if not _has_summary(fn):
+        # the loop body may live in helper methods called through self (one level)
+        for c_ in ast.walk(fn):
+            if isinstance(c_, ast.Call) and isinstance(c_.func, ast.Attribute) and isinstance(c_.func.value, ast.Name) \
+                    and c_.func.value.id == 'self' and c_.func.attr in aci.methods and _has_summary(aci.methods[c_.func.attr]):
+                fn = aci.methods[c_.func.attr]
+                break
     site = site_of(ami, fn)
     found = {}
     for n in ast.walk(fn):
@@ -138,15 +149,45 @@ def _r162(ctx: Ctx) -> None:
     aci = m.cls('Analysis')
     fn = aci.methods['calculate_thresholds']
     # the collection the fitting loop iterates over must be sorted where it is built (or re-bound sorted)
-    loops = [n for n in ast.walk(fn) if isinstance(n, ast.For) and any(
-        isinstance(c, ast.Call) and isinstance(c.func, ast.Name) and c.func.id == 'fit_fss_params' for c in ast.walk(n))]
+    def _fits(c):
+        if isinstance(c, ast.Call) and isinstance(c.func, ast.Name) and c.func.id == 'fit_fss_params':
+            return True
+        # ... or a helper method called through self whose body makes the fit
+        return isinstance(c, ast.Call) and isinstance(c.func, ast.Attribute) and isinstance(c.func.value, ast.Name) \
+            and c.func.value.id == 'self' and c.func.attr in aci.methods and any(
+                isinstance(c2, ast.Call) and isinstance(c2.func, ast.Name) and c2.func.id == 'fit_fss_params'
+                for c2 in ast.walk(aci.methods[c.func.attr]))
+    loops = [n for n in ast.walk(fn) if isinstance(n, ast.For) and any(_fits(c) for c in ast.walk(n))]
     ctx.need(len(loops) == 1 and isinstance(loops[0].iter, ast.Name), 'R16.2', site_of(ami, fn), 'fitting loop not found')
     coll = loops[0].iter.id
     defs = [n for n in ast.walk(fn) if isinstance(n, (ast.Assign, ast.AnnAssign)) and any(
         isinstance(t, ast.Name) and t.id == coll for t in (n.targets if isinstance(n, ast.Assign) else [n.target]))]
     first = min(defs, key=lambda n: n.lineno) if defs else None
     # later re-bindings may only filter the (already sorted) collection
-    ok = first is not None and _has_sort(first.value) and all(
+    def _sorted_value(v):
+        if _has_sort(v):
+            return True
+        # built by a helper method: what the helper returns is sorted where it is built, later statements only filter it
+        if isinstance(v, ast.Call) and isinstance(v.func, ast.Attribute) and isinstance(v.func.value, ast.Name) \
+                and v.func.value.id == 'self' and v.func.attr in aci.methods:
+            h = aci.methods[v.func.attr]
+            rets = [r.value for r in ast.walk(h) if isinstance(r, ast.Return) and r.value is not None]
+            if len(rets) != 1:
+                return False
+            r = rets[0]
+            if _has_sort(r):
+                return True
+            # the returned expression is (a filter of) a local that is sorted where it is first built and only filtered after
+            for nm in sorted({x.id for x in ast.walk(r) if isinstance(x, ast.Name)}):
+                hd = [n for n in ast.walk(h) if isinstance(n, (ast.Assign, ast.AnnAssign)) and any(
+                    isinstance(t, ast.Name) and t.id == nm for t in (n.targets if isinstance(n, ast.Assign) else [n.target]))
+                    and n.value is not None]
+                f0 = min(hd, key=lambda n: n.lineno) if hd else None
+                if f0 is not None and _has_sort(f0.value) and all(
+                        d is f0 or any(isinstance(x, ast.Name) and x.id == nm for x in ast.walk(d.value)) for d in hd):
+                    return True
+        return False
+    ok = first is not None and _sorted_value(first.value) and all(
         d is first or any(isinstance(x, ast.Name) and x.id == coll for x in ast.walk(d.value)) for d in defs)
     ctx.ob('R16.2', site_of(ami, first) if first is not None else site_of(ami, fn),
            'parameter sets are sorted before the fitting loop', ok,
@@ -241,6 +282,33 @@ def _r163(ctx: Ctx) -> None:
                f'returned {v!r}', key=f'get_fit_status|{label}', facts=v)
 
 
+def _fit_function_on_points(ctx: Ctx, m, ami, ff) -> None:
+    import random
+    from .c03 import SymHooks
+    rr = random.Random(7)
+    bad = None
+    n_pts = 0
+    for _ in range(16):
+        p_, d_ = rr.uniform(0.01, 0.4), float(rr.randint(3, 17))
+        pth, nu, a, b, c = rr.uniform(0.05, 0.3), rr.uniform(0.6, 1.7), rr.uniform(0.1, 0.6), rr.uniform(0.5, 2.5), rr.uniform(-1, 3)
+        it = Interp(m, SymHooks())
+        outs = guard('R16.4', ami, ff)(lambda: it.explore(lambda: it.call_closure(
+            Closure(ff, ami), [(p_, d_), pth, nu, a, b, c], {}, ff)))
+        if len(outs) != 1 or outs[0].kind != 'return' or not isinstance(outs[0].value, (float, np.floating)):
+            raise AnalysisError('R16.4', site_of(ami, ff), f'fit_function not evaluated on a generic point: {outs!r}')
+        x = (p_ - pth) * d_ ** nu
+        want = a + b * x + c * x ** 2
+        n_pts += 1
+        if abs(float(outs[0].value) - want) > 1e-12 * max(1.0, abs(want)):
+            bad = (f'fit_function((p, d) = ({p_:.4f}, {d_:.0f}), p_th={pth:.4f}, nu={nu:.4f}, A={a:.4f}, B={b:.4f}, C={c:.4f}) = '
+                   f'{float(outs[0].value):.12g}; the ansatz gives {want:.12g}')
+            break
+    ctx.ob('R16.4', site_of(ami, ff), 'fit_function unpacks x_data = (p, d) and params = (p_th, nu, A, B, C)', bad is None,
+           bad or '', key='fit_function|unpack', facts={'points': n_pts})
+    ctx.ob('R16.4', site_of(ami, ff), 'fit_function = A + B x + C x^2 with x = (p - p_th) d^nu', bad is None, bad or '',
+           key='fit_function|ansatz', facts={'points': n_pts})
+
+
 def _r164(ctx: Ctx) -> None:
     m = ctx.model
     A = Algebra()
@@ -285,11 +353,23 @@ def _r164(ctx: Ctx) -> None:
         return ret, env, unpack
     want = 'A + B*((p - p_th)*d**nu) + C*((p - p_th)*d**nu)**2'
     syms = ['p', 'd', 'p_th', 'nu', 'A', 'B', 'C']
-    ret, env, unpack = body_expr(ami, ff)
-    ok_unpack = unpack.get('x_data') == ['p', 'd'] and unpack.get('params') == ['p_th', 'nu', 'A', 'B', 'C']
-    ctx.ob('R16.4', site_of(ami, ff), 'fit_function unpacks x_data = (p, d) and params = (p_th, nu, A, B, C)', ok_unpack,
-           f'unpacking {unpack}', key='fit_function|unpack', facts=unpack)
-    q1 = A.add(to_sympy_src(ret, env), want, syms, {'d': [2, 12], 'nu': [0.5, 2]})
+    ff_symbolic = True
+    try:
+        ret, env, unpack = body_expr(ami, ff)
+        if not (unpack.get('x_data') and unpack.get('params')):
+            ff_symbolic = False
+    except AnalysisError:
+        ff_symbolic = False
+    if ff_symbolic:
+        ok_unpack = unpack.get('x_data') == ['p', 'd'] and unpack.get('params') == ['p_th', 'nu', 'A', 'B', 'C']
+        ctx.ob('R16.4', site_of(ami, ff), 'fit_function unpacks x_data = (p, d) and params = (p_th, nu, A, B, C)', ok_unpack,
+               f'unpacking {unpack}', key='fit_function|unpack', facts=unpack)
+        q1 = A.add(to_sympy_src(ret, env), want, syms, {'d': [2, 12], 'nu': [0.5, 2]})
+    else:
+        # another shape (composed from helpers, star-arguments): the function as resolved is evaluated on generic points
+        # against the documented ansatz, (p, d) and (p_th, nu, A, B, C) by POSITION
+        q1 = None
+        _fit_function_on_points(ctx, m, ami, ff)
     ret2, env2, unpack2 = body_expr(umi, resc)
     ok2 = unpack2.get('x_data') == ['p', 'd'] and unpack2.get('params') == ['p_th', 'nu', 'A', 'B', 'C']
     ctx.ob('R16.4', site_of(umi, resc), 'rescale_prob unpacks (p, d) and (p_th, nu, A, B, C)', ok2, f'unpacking {unpack2}',
@@ -304,6 +384,8 @@ def _r164(ctx: Ctx) -> None:
     for qi, mi, fn, what, key in ((q1, ami, ff, 'fit_function = A + B x + C x^2 with x = (p - p_th) d^nu', 'fit_function|ansatz'),
                                   (q2, umi, resc, 'rescale_prob = (p - p_th) d^nu', 'rescale_prob|x'),
                                   (q3, umi, quad, 'quadratic = A + B x + C x^2', 'quadratic|ansatz')):
+        if qi is None:
+            continue
         ok, detail = verdict(res[qi])
         if ok is None:
             raise AnalysisError('R16.4', site_of(mi, fn), f'{what}: {detail}')
